@@ -178,4 +178,4 @@ def run(ctx):
 
 def replay(ctx, r):
     S.PROBES['pre'], S.PROBES['post'] = probe_pre, probe_post
-    return S.replay_case(ctx, r)
+    return S.replay_case(ctx, r, oracle=oracle)
